@@ -34,6 +34,7 @@ type propCfg struct {
 	RlimitKB  int64 // address-space limit per worker (0 = none)
 	ShardWall time.Duration
 	Env       []string
+	EnvThor   []string // additional environment in the thorough tier
 }
 
 var cfg = map[string]propCfg{
@@ -54,7 +55,7 @@ var cfg = map[string]propCfg{
 	"C15": {Level: "exploration"},
 	"C16": {Level: "exploration", RaceThor: true},
 	"C17": {Level: "exploration", RaceQuick: true, RaceThor: true, Shards: 4},
-	"C18": {Level: "exploration", RaceThor: true},
+	"C18": {Level: "exploration", RaceThor: true, EnvThor: []string{"GOGC=1"}},
 	"C19": {Level: "fault_enumeration"},
 	"C20": {Level: "exploration"},
 }
@@ -416,6 +417,9 @@ func runShard(prop, tier string, seed int64, s, nshards int, work, worker string
 		cmd.Stdout = ef
 		cmd.Env = append(os.Environ(), "GOTRACEBACK=all")
 		cmd.Env = append(cmd.Env, pc.Env...)
+		if tier == "thorough" {
+			cmd.Env = append(cmd.Env, pc.EnvThor...)
+		}
 		if race {
 			cmd.Env = append(cmd.Env, "GORACE=halt_on_error=0 log_path="+filepath.Join(work, fmt.Sprintf("race-%d", s)))
 		}
